@@ -4,6 +4,7 @@ package rux
 // the body.
 
 import (
+	"context"
 	"io"
 	"net/http"
 )
@@ -18,7 +19,13 @@ func verifHarness_C08_sequence() {
 	var want []byte
 	r.GET("/x", func(c *Context) {
 		for k := 0; k < K; k++ {
-			switch verifChoice("op", 5) {
+			switch verifChoice("op", 6) {
+			case 5:
+				// the request's context ends (client gone, or a timeout middleware's deferred cancel):
+				// whatever status is pending is still committed exactly once
+				ctx, cancel := context.WithCancel(c.Req.Context())
+				cancel()
+				c.Req = c.Req.WithContext(ctx)
 			case 4:
 				// a body that arrives through io.Copy from a plain reader
 				b := []byte{byte('A' + k)}
